@@ -180,8 +180,11 @@ def _mag(prob, name):
 def verdict(desc):
     out = Outcome()
     topo = desc["topo2"]
+    from oasv.models import run_coupled
+
+    coupled = desc["topo"] == "aerostruct"
     pf = build(desc, "fwd")
-    pf.run_model()
+    run_coupled(pf) if coupled else pf.run_model()
     of, wrt_all = names(desc, pf)
     wrt_all = resolve(pf, wrt_all)
     if topo in ("aerostruct", "multipoint"):
@@ -193,7 +196,7 @@ def verdict(desc):
     wrt = [wrt_all[i] for i in sorted(idx)]
     Jf = _dense(pf.compute_totals(of=of, wrt=wrt))
     pr = build(desc, "rev")
-    pr.run_model()
+    run_coupled(pr) if coupled else pr.run_model()
     Jr = _dense(pr.compute_totals(of=of, wrt=wrt))
     fm = {o: max(_mag(pf, o), 1e-6) for o in of}
     xm = {w: max(_mag(pf, w), 1.0) for w in wrt}
